@@ -3,7 +3,9 @@ C16 — Captured child output is complete or an error, never silently truncated;
 left running.  (partial: OS scheduling, pipes, kill/wait are assumed as `Model/Capture.lean` states
 them; everything else is proved for all interleavings, sizes, caps, policies and exit codes —
 including executions in which a `read` of a captured stream or a `write` of the stdin text fails,
-and whatever the stdin writer thread and the child's reading of its stdin do.)
+whatever the stdin writer thread and the child's reading of its stdin do, and for children that
+**close or redirect a captured stream and keep running**: a reader's end of file says nothing about
+the child's life, and nothing here assumes it does.)
 
 Theorems about the transition system of `Model/Capture.lean`; the inductive invariant and its
 preservation lemmas are in `Lemmas/Capture.lean`.  `Gen/Capture.lean` (regenerated from
@@ -55,6 +57,16 @@ obligation breaks and the check searches the stdin scenarios for the run that is
 theorem gen_writer_joined_after_wait :
     Gen.Capture.writerJoinedAfterWait = true ∧ Gen.Capture.writerEpipeIsOk = true := by decide
 
+/-- The wait loop looks at the flag, at the child (`try_wait`) and at the deadline on **every**
+iteration and does nothing else but sleep: its body is, statement for statement, `Pc.load`,
+`Pc.tryWait`, `Pc.deadline`, `Pc.sleep` of `stepMain` — no early exit, no test of the reader threads,
+and no blocking `wait()` inside `wait_for_child` (the only one is `terminate_child`'s, after `kill`).
+If /repo stops polling under some condition (seeded change C16-d1: a blocking `child.wait()` once the
+capture readers have finished — `stepMainWE`) this obligation breaks and the check searches the
+`close` scenarios for the child that is never timed out. -/
+theorem gen_wait_loop_polls_unconditionally :
+    Gen.Capture.waitLoopPollsUnconditionally = true ∧ Gen.Capture.waitLoopBlockingWaits = 0 := by decide
+
 /-- The poll interval is floored at one tick, as `wait_poll_ms.max(1)`; the default is positive anyway. -/
 theorem gen_default_poll_pos : 0 < Gen.Capture.defaultPollMs := by decide
 
@@ -71,8 +83,10 @@ theorem inv_reachable (cfg : Cfg) (plan : Plan) (ls : List Label) (s : State)
 
 /-- Conservation, per stream: as long as the reader has not given up (neither stopped on the size
 check nor ended by a failing `read`), its buffer, the chunk in its
-hand, the pipe and what the child has still to write are exactly the planned bytes, in order —
-nothing lost, nothing duplicated, nothing from the other stream. -/
+hand, the pipe and what the child has still to write are exactly the planned bytes — the bytes the
+child writes to the stream before it closes it or exits —, in order:
+nothing lost, nothing duplicated, nothing from the other stream. Whether the child has closed its end
+of the stream in the meantime makes no difference. -/
 theorem conservation (cfg : Cfg) (plan : Plan) (ls : List Label) (s : State) (x : Strm)
     (hr : run cfg plan (init cfg plan) ls = some s) (hc : cfg.captured x = true)
     (hn : (s.side x).rd ≠ .ovf) (hnf : (s.side x).rd ≠ .failed) :
@@ -97,6 +111,79 @@ theorem buffer_within_cap (cfg : Cfg) (plan : Plan) (ls : List Label) (s : State
   cases x
   · exact h.so.accCap
   · exact h.se.accCap
+
+/-! ### A child that closes (or redirects) a captured stream and keeps running
+
+`childClose x`: the child's end of the stream is closed while the child lives on — `close(1)`,
+`exec 1>&-`, `exec >/dev/null`, a daemon detaching from its terminal. The reader then sees end of file
+with the child alive. What is known about that moment: -/
+
+/-- After the close no write to that stream is possible … -/
+theorem no_write_after_close (cfg : Cfg) (plan : Plan) (s : State) (x : Strm) (n : Nat)
+    (hc : (s.side x).wopen = false) : step cfg plan s (.childWrite x n) = none := by
+  simp only [step]
+  split
+  · simp [Side.write, hc]
+  · rfl
+
+/-- … and none was outstanding: the child closes a stream after its last byte to it. -/
+theorem closed_after_last_byte (cfg : Cfg) (plan : Plan) (ls : List Label) (s : State) (x : Strm)
+    (hr : run cfg plan (init cfg plan) ls = some s) (hc : (s.side x).wopen = false) :
+    (s.side x).pending = [] := by
+  have h := inv_reachable cfg plan ls s hr
+  cases x
+  · exact h.so.closedDone hc
+  · exact h.se.closedDone hc
+
+/-- **End of file means "closed", not "exited" — and it is complete.** A reader that has seen end of
+file did so with the child gone *or* with the child's end of that stream closed (the child possibly
+still running); the pipe is drained, and the reader's buffer is **every byte the child wrote to the
+stream before closing it**, which is the whole plan for that stream. -/
+theorem eof_is_complete (cfg : Cfg) (plan : Plan) (ls : List Label) (s : State) (x : Strm)
+    (hr : run cfg plan (init cfg plan) ls = some s) (he : (s.side x).rd = .eof) :
+    (s.child.isAlive = false ∨ (s.side x).wopen = false) ∧ (s.side x).pipe = [] ∧
+      (s.side x).acc = (s.side x).written ∧
+      (s.side x).written ++ (s.side x).pending = plan.bytes x ∧
+      (s.child.isAlive = false ∨ (s.side x).acc = plan.bytes x) := by
+  have h := inv_reachable cfg plan ls s hr
+  have hd := h.eofDead x he
+  cases x with
+  | out =>
+    simp only [side_out] at he hd ⊢
+    obtain ⟨hacc, hpl⟩ := h.so.eof_acc he
+    refine ⟨hd, h.so.eofEmpty he, hacc, hpl, ?_⟩
+    rcases hd with hd | hd
+    · exact Or.inl hd
+    · right; have := h.so.closedDone hd; rw [this] at hpl; simpa [hacc, Plan.bytes] using hpl
+  | err =>
+    simp only [side_err] at he hd ⊢
+    obtain ⟨hacc, hpl⟩ := h.se.eof_acc he
+    refine ⟨hd, h.se.eofEmpty he, hacc, hpl, ?_⟩
+    rcases hd with hd | hd
+    · exact Or.inl hd
+    · right; have := h.se.closedDone hd; rw [this] at hpl; simpa [hacc, Plan.bytes] using hpl
+
+def closeCfg : Cfg :=
+  { cap := 4, chunk := 8192, pipeCap := 65536, polOut := .capture, polErr := .capture,
+    timeout := 1000, poll := 1, fixedJoin := true }
+
+/-- Non-vacuity: the reader of stdout is at end of file, holding "hi", while the child is alive (and
+will be for ever: it hangs); stderr is still open. -/
+example :
+    (run closeCfg { out := b!"hi", err := b!"x", ending := .never, sigpipeDies := false }
+      (init closeCfg { out := b!"hi", err := b!"x", ending := .never, sigpipeDies := false })
+      [.childWrite .out 2, .childClose .out, .rdRead .out, .rdCheck .out, .rdEof .out]).map
+      (fun s => (s.o.rd, s.o.acc, s.child, s.o.wopen, s.e.wopen))
+    = some (.eof, b!"hi", .alive, false, true) := by decide
+
+/-- A stream cannot be closed twice, nor with bytes still to be written to it. -/
+example :
+    (run closeCfg { out := b!"hi", err := [], ending := .code 0, sigpipeDies := false }
+      (init closeCfg { out := b!"hi", err := [], ending := .code 0, sigpipeDies := false })
+      [.childWrite .out 1, .childClose .out]) = none ∧
+    (run closeCfg { out := b!"hi", err := [], ending := .code 0, sigpipeDies := false }
+      (init closeCfg { out := b!"hi", err := [], ending := .code 0, sigpipeDies := false })
+      [.childClose .err, .childClose .err]) = none := by decide
 
 /-! ### Safety: what a terminal state can be -/
 
@@ -418,11 +505,11 @@ theorem step_decreases_variant (cfg : Cfg) (plan : Plan) (s s' : State) (l : Lab
 
 theorem bounded_work (cfg : Cfg) (plan : Plan) (ls : List Label) (s : State)
     (hr : run cfg plan (init cfg plan) ls = some s) :
-    nonTicks ls ≤ 5 * cfg.timeout + 5 * (plan.out.length + plan.err.length) + 2 * cfg.stdin.getD 0 + 18 := by
+    nonTicks ls ≤ 5 * cfg.timeout + 5 * (plan.out.length + plan.err.length) + 2 * cfg.stdin.getD 0 + 20 := by
   have h := run_nonTicks_le hr
   have hi : (init cfg plan).mu cfg ≤
-      5 * cfg.timeout + 5 * (plan.out.length + plan.err.length) + 2 * cfg.stdin.getD 0 + 18 := by
-    simp only [State.mu, init, Side.init, Pc.mu, Side.mu, Child.mu, List.length_nil]
+      5 * cfg.timeout + 5 * (plan.out.length + plan.err.length) + 2 * cfg.stdin.getD 0 + 20 := by
+    simp only [State.mu, init, Side.init, Pc.mu, Side.mu, Child.mu, List.length_nil, if_true]
     have h1 : ∀ p : Policy, (if p = .capture then Rd.idle else Rd.absent).rank ≤ 2 := by
       intro p; split <;> simp [Rd.rank]
     have := h1 cfg.polOut; have := h1 cfg.polErr
@@ -787,20 +874,21 @@ theorem c16_writer_first_is_wrong :
     have hrun : (runWF slowCfg wfStuckPlan (initWF slowCfg wfStuckPlan) [.wrWrite 2]).map
         (fun s => (s.pc, s.i, s.child)) = some (.preJoinWr, ⟨1, 2, .busy, true⟩, .alive) := by decide
     have hrun' : (runWF slowCfg wfStuckPlan (initWF slowCfg wfStuckPlan) [.wrWrite 2]).map
-        (fun s => ((s.o.rd, s.e.rd), (s.o.pipe, s.e.pipe))) = some ((.idle, .idle), ([], [])) := by decide
+        (fun s => ((s.o.rd, s.e.rd), (s.o.pipe, s.e.pipe), (s.o.wopen, s.e.wopen))) =
+          some ((.idle, .idle), ([], []), (true, true)) := by decide
     cases hs : runWF slowCfg wfStuckPlan (initWF slowCfg wfStuckPlan) [.wrWrite 2] with
     | none => simp [hs] at hrun
     | some s =>
       simp only [hs, Option.map_some, Option.some.injEq, Prod.mk.injEq] at hrun hrun'
       obtain ⟨hpc, hi, hch⟩ := hrun
-      obtain ⟨⟨hro, hre⟩, hpo, hpe⟩ := hrun'
+      obtain ⟨⟨hro, hre⟩, ⟨hpo, hpe⟩, hwo, hwe⟩ := hrun'
       have hres : s.result = none := by simp [State.result, hpc]
       rcases h slowCfg wfStuckPlan [.wrWrite 2] s (by decide) hs hres with hm | ⟨w, hw, _⟩ | ⟨x, hx⟩ | hx
       · simp [stepMainWF, hpc, hi] at hm
       · rw [hpc] at hw; cases hw
       · unfold readerEnabled at hx
         cases x <;>
-          simp [step, Side.read, Side.check, Side.eof, hro, hre, hpo, hpe, hch, Child.isAlive] at hx
+          simp [step, Side.read, Side.check, Side.eof, hro, hre, hpo, hpe, hwo, hwe, hch, Child.isAlive] at hx
       · unfold writerEnabled at hx
         rcases hx with ⟨n, hn⟩ | hn | hn
         · simp only [step, Option.isSome_map, Inp.write, hi, slowCfg, d16Cfg] at hn
@@ -814,6 +902,110 @@ theorem c16_writer_first_is_wrong :
 `join_writer` but in the wait loop, which is enabled. -/
 example : ((run slowCfg wfStuckPlan (init slowCfg wfStuckPlan) [.wrWrite 2]).bind
     (fun s => step slowCfg wfStuckPlan s .main)).isSome = true := by decide
+
+/-! ### The wait loop and the reader threads: end of file is not the end of the child
+
+The wait loop looks at the overflow flag, the child and the clock — not at the reader threads. A child
+that closes its captured streams and keeps running is therefore polled, timed out and killed like any
+other (`outliving_child_is_never_ok`, `outliving_child_times_out`: their executions include every
+`childClose`). The loop that takes "all readers have finished" for "the child is on its way out" and
+then blocks in `child.wait()` (`stepMainWE`, seeded change C16-d1) is refuted below. -/
+
+/-- The main thread's step in the wait loop and on the kill path is the same for every state of the
+two stream sides — reader threads running, finished at end of file, stopped on the limit or failed;
+pipes full or empty; the child's ends open or closed: same successor, sides untouched. -/
+theorem wait_loop_ignores_readers (cfg : Cfg) (s : State) (o' e' : Side) (hw : s.pc.inWait = true) :
+    stepMain cfg { s with o := o', e := e' } =
+      (stepMain cfg s).map (fun t => { t with o := o', e := e' }) :=
+  stepMain_inWait_indep_sides cfg s o' e' hw
+
+/-- A child that writes "hi", closes both captured streams and goes on for five ticks, against a
+timeout of one tick. -/
+def weCfg : Cfg := { d16Cfg with timeout := 1, poll := 1, fixedJoin := true }
+def wePlan : Plan := { out := b!"hi", err := [], ending := .code 0, sigpipeDies := false, endAfter := 5 }
+
+/-- Under the code's loop: both readers finish at end of file while the child is alive; the main
+thread polls, sleeps one interval, sees the deadline, kills and reaps the child: `Timeout`. Prompt. -/
+def weGoodLabels : List Label :=
+  [.childWrite .out 2, .childClose .out, .childClose .err, .rdRead .out, .rdCheck .out, .rdEof .out,
+   .rdEof .err, .main, .main, .main, .tick, .main, .main, .main, .main, .main, .main, .main, .main, .main]
+
+example : (run weCfg wePlan (init weCfg wePlan) weGoodLabels).map (fun s => (s.result, s.child, s.o.acc))
+    = some (some (.error .timeout), .reaped none .killed, b!"hi") := by decide
+example : prompt (stepMain weCfg) (step weCfg wePlan) (init weCfg wePlan) weGoodLabels = true := by decide
+example : weCfg.timeout + max weCfg.poll 1 ≤ wePlan.endAfter := by decide
+
+/-- Under the other loop: same child, same first steps; at the third statement of the first iteration
+the readers are found finished and the flag clear, the main thread blocks in `child.wait()`; five
+ticks pass (the deadline with them); the child ends by itself; an ordinary result with the complete
+output "hi" for a child that ran to five times its timeout and was never killed. Prompt as well (time
+passes only while the main thread is blocked). -/
+def weLabels : List Label :=
+  [.childWrite .out 2, .childClose .out, .childClose .err, .rdRead .out, .rdCheck .out, .rdEof .out,
+   .rdEof .err, .main, .main, .main, .main, .tick, .tick, .tick, .tick, .tick, .childEnd,
+   .main, .main, .main, .main, .main, .main]
+
+/-- The same child, except that it never ends. -/
+def weStuckPlan : Plan := { wePlan with ending := .never }
+def weStuckLabels : List Label :=
+  [.childWrite .out 2, .childClose .out, .childClose .err, .rdRead .out, .rdCheck .out, .rdEof .out,
+   .rdEof .err, .main, .main, .main, .main]
+
+/-- **The loop that stops polling at end of file is wrong** (seeded change C16-d1): a child that
+closes its captured streams and outlives its deadline is reported as a success, and a reachable state
+exists (the same child never ending) in which the runner cannot move and is not waiting for time —
+the run never returns and the child is never killed. -/
+theorem c16_wait_after_eof_is_wrong :
+    ¬ c16_outliving stepMainWE stepWE runWE init ∧ ¬ c16_progress stepMainWE runWE init := by
+  constructor
+  · intro h
+    have hrun : (runWE weCfg wePlan (init weCfg wePlan) weLabels).map State.result
+        = some (some (.ok (some 0) (some (b!"hi")) (some []))) := by decide
+    cases hs : runWE weCfg wePlan (init weCfg wePlan) weLabels with
+    | none => simp [hs] at hrun
+    | some s =>
+      simp only [hs, Option.map_some, Option.some.injEq] at hrun
+      obtain ⟨e, he⟩ := h weCfg wePlan weLabels s _ (by decide) hs (by decide) hrun
+      cases he
+  · intro h
+    have hrun : (runWE weCfg weStuckPlan (init weCfg weStuckPlan) weStuckLabels).map
+        (fun s => (s.pc, s.i, s.child)) = some (.blockWait, ⟨0, 0, .absent, true⟩, .alive) := by decide
+    have hrun' : (runWE weCfg weStuckPlan (init weCfg weStuckPlan) weStuckLabels).map
+        (fun s => (s.o.rd, s.e.rd)) = some (.eof, .eof) := by decide
+    cases hs : runWE weCfg weStuckPlan (init weCfg weStuckPlan) weStuckLabels with
+    | none => simp [hs] at hrun
+    | some s =>
+      simp only [hs, Option.map_some, Option.some.injEq, Prod.mk.injEq] at hrun hrun'
+      obtain ⟨hpc, hi, hch⟩ := hrun
+      obtain ⟨hro, hre⟩ := hrun'
+      have hres : s.result = none := by simp [State.result, hpc]
+      rcases h weCfg weStuckPlan weStuckLabels s (by decide) hs hres with hm | ⟨w, hw, _⟩ | ⟨x, hx⟩ | hx
+      · simp [stepMainWE, hpc, hch] at hm
+      · rw [hpc] at hw; cases hw
+      · unfold readerEnabled at hx
+        cases x <;> simp [step, Side.read, Side.check, Side.eof, hro, hre] at hx
+      · unfold writerEnabled at hx
+        rcases hx with ⟨n, hn⟩ | hn | hn
+        · simp [step, Inp.write, hi] at hn
+        · simp [step, Inp.finish, hi] at hn
+        · simp [step, Inp.epipe, hi] at hn
+
+/-- In the state in which the other loop is stuck for ever, the code's loop (which is at its `sleep`)
+goes on once the interval has passed. -/
+example : ((run weCfg weStuckPlan (init weCfg weStuckPlan)
+    [.childWrite .out 2, .childClose .out, .childClose .err, .rdRead .out, .rdCheck .out, .rdEof .out,
+     .rdEof .err, .main, .main, .main, .tick]).bind
+    (fun s => step weCfg weStuckPlan s .main)).isSome = true := by decide
+
+/-- A child that closes both captured streams early and ends *in time* is an ordinary, complete
+success: exit code 3, "hi" on stdout, nothing on stderr. -/
+example :
+    (run d16Cfg { out := b!"hi", err := [], ending := .code 3, sigpipeDies := false, endAfter := 2 }
+      (init d16Cfg { out := b!"hi", err := [], ending := .code 3, sigpipeDies := false, endAfter := 2 })
+      [.childClose .err, .rdEof .err, .childWrite .out 2, .childClose .out, .rdRead .out, .rdCheck .out,
+       .rdEof .out, .main, .main, .main, .tick, .tick, .childEnd, .main, .main, .main, .main, .main, .main,
+       .main, .main]).map State.result
+    = some (some (.ok (some 3) (some (b!"hi")) (some []))) := by decide
 
 /-! ### Non-vacuity: concrete executions reach each kind of terminal state -/
 
